@@ -39,7 +39,11 @@ import (
 // chain, authority with optional cache), behind a recording core.Sender.  The other replicas are
 // puppets: the script crafts their messages with their real keys (ops of the cert/wire families).
 //
-//	replica <r> rules=<chainedhotstuff|simplehotstuff|fasthotstuff> [leader=rr|fixed:<id>]
+//	replica <r> rules=<chainedhotstuff|simplehotstuff|fasthotstuff> [leader=rr|fixed:<id>] [verify=async]
+//	verify-hold on|off        (verify=async) close / open the gate in front of vote verification; opening
+//	                          releases the held verifications oldest first, the event loop runs after each
+//	verify-release <k>        (verify=async) the k-th oldest held verification finishes (its verifyCert
+//	                          goroutine has ended when the op answers), then the event loop runs
 //	start
 //	deliver propose <block> from=<id> [agg=<agg>]
 //	deliver vote <sig> <block|unk:x> from=<id>
@@ -70,6 +74,21 @@ type replicaFam struct {
 	svc        hotstuffpb.ConsensusServer
 	nwire      int
 	sendFail   bool // the sender knows no replica: Vote / NewView answer an error
+	// verify=async: the replica runs WITHOUT core.WithSyncVerification; its votes are verified by
+	// `go vm.verifyCert(...)`, which the gate can hold back (verifygate.go)
+	async bool
+	gate  *verifyGate
+}
+
+// close ends what an abandoned instance left behind: held verification goroutines run to their end.
+func (f *replicaFam) close() {
+	if f.gate == nil {
+		return
+	}
+	f.gate.setClosed(false)
+	for f.gate.release(1) {
+	}
+	settleVerifiers()
 }
 
 func init() {
@@ -226,15 +245,23 @@ func (f *replicaFam) candidateQCs() []hotstuff.QuorumCert {
 
 // ---- set-up ----
 
-func (f *replicaFam) build(r int, rulesName, leader string) string {
+func (f *replicaFam) build(r int, rulesName, leader string, async bool) string {
+	f.close()
 	f.id = hotstuff.ID(r)
 	cfg := f.env.cfgs[r-1]
+	cfg.VerifSetSyncVerification(!async)
+	f.async, f.gate = async, nil
 	logger := logging.New("r")
 	f.el = eventloop.New(logger, 1000)
 	f.sendFail = false
 	snd := recSender{f}
 	f.chain = blockchain.New(f.el, logger, snd)
 	auth := cert.NewAuthority(cfg, f.chain, signLogger{f.env.bases[r-1], f})
+	if async {
+		// in front of the cache, if there is one: a cached result would skip a gate below it
+		f.gate = &verifyGate{Base: auth.Base, own: f.id}
+		auth.Base = f.gate
+	}
 	var err error
 	f.states, err = protocol.NewViewStates(f.chain, auth)
 	if err != nil {
@@ -301,6 +328,17 @@ func batchDesc(b *clientpb.Batch) string {
 
 func (f *replicaFam) run() {
 	ctx := context.Background()
+	if f.async {
+		// one event at a time; what the event started (a verification goroutine) has ended or is held
+		// at the gate before the next event is handled, and before the loop is declared quiescent
+		for i := 0; i < 100000; i++ {
+			settleVerifiers()
+			if !f.el.Tick(ctx) {
+				break
+			}
+		}
+		return
+	}
 	for i := 0; i < 100000 && f.el.Tick(ctx); i++ {
 	}
 }
@@ -345,7 +383,10 @@ func (f *replicaFam) op(a []string) (out string) {
 			return "bad-op"
 		}
 		kv := kvArgs(a)
-		return f.build(r, kv["rules"], kv["leader"])
+		if v, ok := kv["verify"]; ok && v != "async" && v != "sync" {
+			return "bad-op"
+		}
+		return f.build(r, kv["rules"], kv["leader"], kv["verify"] == "async")
 	}
 	if f.el == nil {
 		return f.wireFam.op(a)
@@ -361,6 +402,30 @@ func (f *replicaFam) op(a []string) (out string) {
 	case "start":
 		// Synchronizer.Start: the leader of view 1 proposes (timers are not modelled)
 		f.startLeader()
+		f.run()
+		return f.flush()
+	case "verify-hold":
+		if f.gate == nil || len(a) != 2 || (a[1] != "on" && a[1] != "off") {
+			return "bad-op"
+		}
+		if a[1] == "on" {
+			f.gate.setClosed(true)
+			return "ok"
+		}
+		f.gate.setClosed(false)
+		for f.gate.release(1) {
+			f.run()
+		}
+		f.run()
+		return f.flush()
+	case "verify-release":
+		if f.gate == nil || len(a) != 2 {
+			return "bad-op"
+		}
+		k, err := strconv.Atoi(a[1])
+		if err != nil || !f.gate.release(k) {
+			return "bad-op"
+		}
 		f.run()
 		return f.flush()
 	case "sender-fails":
